@@ -47,11 +47,22 @@ def replay(chk, behs, rng, fire_every):
         vu = vel_units[(bi // 4) % 5]
         TU, VU = UA.unit_enum(tu), UA.unit_enum(vu)
 
+        # every third behaviour passes BARE numbers, read in the preferred units set for it (C07 meets C17: the
+        # calibration, baseline and query sites must all read a plain number the same way)
+        bare = bi % 3 == 2
+        core.reset_world()
+        if bare:
+            m.PreferredUnits.temperature = TU
+            m.PreferredUnits.velocity = VU
+            chk.stratum("bare_numbers")
+
         def T_(t):
-            return TU(float(UA.convert("Celsius", tu, t)))
+            x = float(UA.convert("Celsius", tu, t))
+            return x if bare else TU(x)
 
         def V_(v):
-            return VU(float(UA.convert("MPS", vu, v)))
+            x = float(UA.convert("MPS", vu, v))
+            return x if bare else VU(x)
 
         ammo = m.Ammo(dm, V_(v0), T_(T0))
         flag = False
@@ -70,8 +81,8 @@ def replay(chk, behs, rng, fire_every):
                     chk.stratum("calibration_rejected")
                     # equal velocity or temperature in another unit may differ by rounding: only demand the
                     # rejection when the values are bit-identical after conversion
-                    same_v = (V_(op["v"]) >> U.MPS) == (ammo.mv >> U.MPS)
-                    same_t = (T_(op["T"]) >> U.Celsius) == (ammo.powder_temp >> U.Celsius)
+                    same_v = (VU(float(UA.convert("MPS", vu, op["v"]))) >> U.MPS) == (ammo.mv >> U.MPS)
+                    same_t = (TU(float(UA.convert("Celsius", tu, op["T"]))) >> U.Celsius) == (ammo.powder_temp >> U.Celsius)
                     if (same_v or same_t):
                         if o[0] == "ok":
                             chk.violation("C17.BadCalibrationAccepted", {**key0, "v1": op["v"], "T1": op["T"]}, {"beh": b, "step": step})
@@ -148,10 +159,11 @@ def run(chk: core.Check, replay_path=None, **_):
         chk.tlc_runs.append({"what": "Gen_Powder -simulate depth 6", "behaviours": len(sim.out("BEH"))})
         replay(chk, sim.out("BEH"), rng, fire_every=50)
         chk.traces += len(sim.out("BEH"))
+    core.reset_world()
     chk.traces += len(behs)
     for b in behs[:: max(1, len(behs) // 4)][:4]:
         chk.sample(b)
-    chk.require_strata(["calibration_rejected", "calibrated_faster", "calibrated_slower", "calibrated_warmer", "calibrated_colder",
+    chk.require_strata(["bare_numbers", "calibration_rejected", "calibrated_faster", "calibrated_slower", "calibrated_warmer", "calibrated_colder",
                         "query_enabled", "query_disabled", "fire_air", "fire_powder_t"])
     chk.rule.append("every behaviour of %d operations of the Powder state machine over v in %s m/s, T in %s C (TLC Gen_Powder), "
                     "temperatures/velocities passed in rotating units; non-trivial = an enabled query whose answer differs "
